@@ -447,6 +447,8 @@ func (s *Sim) doAction(client string, a Action) {
 		w.or.checkForceStopped(w)
 	case "settle-reconf":
 		s.settleReconf(client)
+	case "api-experiment":
+		s.apiExperiment()
 	case "drain:stopwait", "drain:stop+wait", "drain:stopall":
 		s.drain(client, strings.TrimPrefix(a.Op, "drain:"))
 	case "end":
